@@ -27,7 +27,7 @@ PROPERTY_OF = {"S.Adv": "P1", "S.NoExtra": "P1", "S.NoMutation": "P1", "S.SamePa
                "C.ModernNoServerRequest": "P5", "C.RootsNotif": "P6", "D.AdvCurrent": "P1", "D.AckExact": "P6",
                "D.NoNotifWhenDisabled": "P6", "D.ModernOnlyAcked": "P6", "D.NoSpurious": "P6", "D.Eventually": "P6"}
 DYN_ACTIONS = ("AddF", "RemoveF", "ConnectLegacy", "ConnectModern", "Close", "Tick")
-WITNESSES = ("NoSurprise", "NeverNotifiedModern", "NeverPartialAck", "NeverOwedTwoKinds")
+WITNESSES = ("NoSurprise", "NeverPartialAck", "NeverNotifiedModern", "NeverOwedTwoKinds")
 KIND_PAIRS = [["tools", "resources"], ["prompts", "resources"], ["tools", "prompts"]]
 
 
@@ -87,8 +87,8 @@ def design_dyn(v, tier):
                  "3 kinds, legacy session only: safety + liveness"),
                 ("mc3M.cfg", dyn_cfg("FairSpec", K3, [], ["M1"], "AllWants", inv, "LiveNotified"),
                  "3 kinds, 2026-07-28 session only, every want set: safety + liveness"),
-                ("mc2LLM.cfg", dyn_cfg("Spec", K2, ["L1", "L2"], ["M1"], "FewWants", inv),
-                 "2 kinds, two legacy sessions + M1: safety")]
+                ("mc2LL.cfg", dyn_cfg("FairSpec", K2, ["L1", "L2"], [], "AllWants", inv, "LiveNotified"),
+                 "2 kinds, two legacy sessions: safety + liveness")]
     for i, (cfg, text, what) in enumerate(runs):
         extra = {cfg: text} if text else None
         res = vlib.run_tlc("CapabilitiesDyn", cfg, workdir=own_wd(), extra_files=extra, workers=TLC_WORKERS, timeout=900, heap_gb=6,
@@ -106,12 +106,12 @@ def design_dyn(v, tier):
             v.cov["action_coverage_missing"] = missing
     # reachability witnesses (each must be VIOLATED): D-D1 and the interesting corners of the state space
     base = dyn_cfg("Spec", ["tools", "resources"], ["L1"], ["M1"], "AllWants")
-    for w in WITNESSES:
+    for w in (WITNESSES if tier == "thorough" else WITNESSES[:2]):
         r = vlib.run_tlc("CapabilitiesDyn", "wit.cfg", workdir=own_wd(), extra_files={"wit.cfg": base + "INVARIANT %s\n" % w},
                          workers=1, timeout=300, heap_gb=2)
         if r.violation != w:
             raise vlib.MachineryError("vacuity: witness %s not reachable (%s)" % (w, r.error or r.violation))
-    v.cov["witnesses_reached"] = list(WITNESSES)
+    v.cov["witnesses_reached"] = list(WITNESSES if tier == "thorough" else WITNESSES[:2])
 
 
 # ---------------------------------------------------------------------------------------------------- generation
@@ -119,7 +119,7 @@ def design_dyn(v, tier):
 SRV_GROUPS = [("xt", "ht", "rt"), ("xp", "hp", "rp"), ("xr", "hr", "rr", "sh"), ("xc", "ch", "xl", "cn")]
 
 
-def pick_server_cases(srv, tier, seed, n_quick=6000):
+def pick_server_cases(srv, tier, seed, n_quick=4000):
     """thorough: the complete product; quick: a seeded sample in which every combination of every group of
     related options occurs (the groups are what one branch of capabilities() reads)"""
     if tier == "thorough":
@@ -261,14 +261,17 @@ def dyn_sig(inv, rows, line):
         if rows[j]["ev"] == "reset":
             cfg = rows[j]["cfg"]
             break
-    if inv in ("D.NoNotifWhenDisabled", "D.ModernOnlyAcked", "D.NoSpurious"):
-        kinds = sorted({"%s=%s" % (d[1], cfg.get(d[1], "?")) for d in e["dl"]})
-        return "%s:at=%s:%s" % (inv, e["ev"], ",".join(kinds))
+    if inv == "D.NoNotifWhenDisabled":
+        return "%s:at=%s:%s" % (inv, e["ev"], ",".join(sorted({d[1] for d in e["dl"] if cfg.get(d[1]) == "lcF"})))
+    if inv in ("D.ModernOnlyAcked", "D.NoSpurious"):
+        return "%s:at=%s:%s" % (inv, e["ev"], ",".join(sorted({"%s=%s" % (d[1], cfg.get(d[1], "?")) for d in e["dl"]})))
     if inv.startswith("D.AdvCurrent."):
         k = inv.split(".")[2]
         return "%s:era=%s:explicit=%s:got=%s" % (inv, e["era"], cfg.get(k, "?"), e["adv"][k])
     if inv == "D.AckExact":
-        return "%s:%s" % (inv, ",".join("%s=%s/%s" % (k, cfg.get(k, "?"), e["adv"][k]) for k in sorted(e["want"])))
+        # signature only: the kinds whose acknowledgement differs from "wanted and advertised listChanged"
+        off = sorted(k for k in e["adv"] if (k in e["ack"]) != (k in e["want"] and e["adv"][k] == "lcT"))
+        return "%s:%s" % (inv, ",".join("%s:advertised=%s:%s" % (k, e["adv"][k], "acked" if k in e["ack"] else "not-acked") for k in off))
     return "%s:at=%s" % (inv, e["ev"])
 
 
@@ -338,7 +341,10 @@ def run(tier, seed, replay):
 
     # ---- design + generation
     srv, cli, sleads, cleads = design_tables(v)
-    design_dyn(v, tier)
+    # the model checking of the dynamic part runs beside the replay of the tables (joined before the verdict)
+    import concurrent.futures
+    pool = concurrent.futures.ThreadPoolExecutor(max_workers=1)
+    dyn_design = pool.submit(design_dyn, v, tier)
     if rep and rep.get("kind") == "table":
         tcases, exhaustive = [rep["line"]], False
     elif rep:
@@ -357,10 +363,13 @@ def run(tier, seed, replay):
             scen += dyn_sims(v, 200, seed)
         else:
             scen = []
-            for pair in KIND_PAIRS:
-                scen += dyn_cover(v, pair, ["L1", "L2"], ["M1"], "AllWants", seed, "2kinds." + "+".join(pair))
+            for i, pair in enumerate(KIND_PAIRS):
+                if i == seed % len(KIND_PAIRS):     # one pair with two 2026-07-28 sessions, the others with L1 + M1
+                    scen += dyn_cover(v, pair, ["L1"], ["M1", "M2"], "FewWants", seed, "2kinds." + "+".join(pair) + ".M1M2")
+                else:
+                    scen += dyn_cover(v, pair, ["L1"], ["M1"], "AllWants", seed, "2kinds." + "+".join(pair))
             scen += dyn_cover(v, ["tools", "prompts", "resources"], ["L1"], ["M1"], "FewWants", seed, "3kinds", maxlen=60)
-            scen += dyn_sims(v, 4000, seed)
+            scen += dyn_sims(v, 3000, seed)
     v.cov["states"] += len(srv) + len(cli)
     v.cov["transitions"] += len(srv) + len(cli)
 
@@ -392,7 +401,8 @@ def run(tier, seed, replay):
         if os.path.exists(dobs):
             os.remove(dobs)
         rc, gout, wall = vlib.go_test("mcp", "^TestVerif_X06Dyn$", ["mcp/x06_caps_test.go"], timeout=900,
-                                      env={"VERIF_IN": din, "VERIF_OUT": dobs, "VERIF_SEED": seed})
+                                      env={"VERIF_IN": din, "VERIF_OUT": dobs, "VERIF_SEED": seed, "VERIF_WORKERS": GO_WORKERS},
+                                      parallel=GO_WORKERS)
         vlib.go_must_build(rc, gout, PID)
         if rc != 0:
             inflight = ""
@@ -413,6 +423,9 @@ def run(tier, seed, replay):
         if nreset != len(scen):
             raise vlib.MachineryError("dynamic harness ran %d of %d scenarios" % (nreset, len(scen)))
         v.cov["dyn_wall_s"] = round(wall, 1)
+
+    dyn_design.result()   # re-raises a MachineryError of the design check
+    pool.shutdown()
 
     # ---- verdict: tables
     failed_cells = set()
